@@ -274,6 +274,9 @@ def entry_points(data, all_keys):
         _RECYCLED.seek(0)
         again = patient(getattr(pe, name), _RECYCLED, seconds=20)
         res["pe." + name + "(recycled file object)"] = cls(again) if repr(again) == repr(fresh) or again[0] != "ok" or fresh[0] != "ok" else "result_depends_on_earlier_input"
+        # the documented call form "from the current file position" on a file object at position 0: the same outcome as the default
+        here = patient(getattr(pe, name), io.BytesIO(data), start_offset=None, seconds=20)
+        res["pe." + name + "(start_offset=None)"] = cls(here) if repr(here) == repr(fresh) or here[0] != "ok" or fresh[0] != "ok" else "result_depends_on_call_form"
     res["iter_artifactkit_payloads"] = cls(patient(lambda: sum(1 for _ in artifact.iter_artifactkit_payloads(io.BytesIO(data))), seconds=60))
     res["iter_guardrail_configs_with_beacon"] = cls(patient(lambda: sum(1 for _ in guardrails.iter_guardrail_configs_with_beacon(io.BytesIO(data))), seconds=120))
     res["parse_raw_http"] = cls(patient(c2.parse_raw_http, data, seconds=10))
